@@ -57,7 +57,7 @@ func (b *builder) Secrets() ([]*big.Int, error) {
 }
 
 func ParseSecrets(secrets []*big.Int) ([][]*big.Int, error) {
-	if secrets == nil || len(secrets) < 2 {
+	if len(secrets) < 1 {
 		return nil, errors.New("ParseSecrets: secrets == nil or is too small")
 	}
 	var el, nextPartLen int64
@@ -89,6 +89,16 @@ func ParseSecrets(secrets []*big.Int) ([][]*big.Int, error) {
 			el += nextPartLen
 		}
 		isLenEl = !isLenEl
+	}
+	if !isLenEl {
+		// the input ended right after a length prefix: only an empty last part is well-formed
+		if nextPartLen != 0 {
+			return nil, errors.New("ParseSecrets: not enough data to consume stated data length")
+		}
+		if PartsCap <= len(parts) {
+			return nil, fmt.Errorf("ParseSecrets: commitment has too many parts: part %d, max %d", len(parts), PartsCap)
+		}
+		parts = append(parts, secrets[el:el])
 	}
 	return parts, nil
 }
